@@ -32,11 +32,20 @@ func (e *Engine) isVisible(st *State, th *Thread, fr *Frame, instr ssa.Instructi
 			return false // stubs are never reached through dynamic dispatch
 		}
 		if fn, ok := cc.Value.(*ssa.Function); ok {
-			return e.visibleFn[fnKey(fn)]
+			return e.isVisibleFn(fnKey(fn))
 		}
 		return false
 	}
 	return false
+}
+
+// isVisibleFn: scheduling points by name. With the precise sync.Pool model the pool is shared state like any other
+// synchronisation object, so Get and Put are scheduling points (with the abstract model nothing is shared through it).
+func (e *Engine) isVisibleFn(key string) bool {
+	if e.visibleFn[key] {
+		return true
+	}
+	return e.PoolPrecise && (key == "(*sync.Pool).Get" || key == "(*sync.Pool).Put")
 }
 
 func (e *Engine) isVisibleCall(st *State, th *Thread, fv FuncV, args []Value) bool {
@@ -44,7 +53,7 @@ func (e *Engine) isVisibleCall(st *State, th *Thread, fv FuncV, args []Value) bo
 		return fv.Blt.Name() == "close"
 	}
 	if fv.Fn != nil {
-		return e.visibleFn[fnKey(fv.Fn)]
+		return e.isVisibleFn(fnKey(fv.Fn))
 	}
 	return false
 }
